@@ -65,9 +65,11 @@ Proof.
   intros H Hc. destruct e as [t k|t order|t|t|t order|t cl order|]; cbn [step] in H.
   - destruct (get_pc (pcs s) t); try discriminate.
     destruct (take_idle k (idle s)); [injection H as <-; rewrite proceed_closed in Hc; exact Hc|].
-    destruct (connect_must_wait _); injection H as <-; [exact Hc|rewrite proceed_closed in Hc; exact Hc].
+    destruct (connect_must_wait _); [|injection H as <-; rewrite proceed_closed in Hc; exact Hc].
+    destruct (refuse_wait s); injection H as <-; exact Hc.
   - destruct (get_pc (pcs s) t) as [| k f | | | | |]; try discriminate. destruct f; try discriminate.
-    + destruct (wait_slot_found _); injection H as <-; [rewrite proceed_closed in Hc|]; exact Hc.
+    + destruct (wait_slot_found _); [injection H as <-; rewrite proceed_closed in Hc; exact Hc|].
+      destruct (refuse_wait _); injection H as <-; exact Hc.
     + injection H as <-. exact Hc.
     + destruct (release_waiter c _ order) as [s2|] eqn:Er; [|discriminate]. injection H as <-.
       apply release_waiter_closed in Er. cbn [with_pc closed] in Hc. rewrite Er in Hc. exact Hc.
@@ -145,9 +147,10 @@ Proof.
     assert (Hn : ~ is_owner_pc (get_pc (pcs s) t)).
     { rewrite Ep. intros [(k' & E)|(k' & cn & E)]; discriminate. }
     destruct (take_idle k (idle s)); [injection H as <-; apply proceed_owned; assumption|].
-    destruct (connect_must_wait _); injection H as <-; [|apply proceed_owned; assumption].
-    eapply (owned_same c s); [reflexivity|reflexivity|reflexivity| |exact O].
-    intros t' Ho. cbn [with_pc with_waiters pcs]. apply not_owner_other; assumption.
+    destruct (connect_must_wait _); [|injection H as <-; apply proceed_owned; assumption].
+    destruct (refuse_wait s); injection H as <-;
+      (eapply (owned_same c s); [reflexivity|reflexivity|reflexivity| |exact O];
+       intros t' Ho; cbn [with_pc with_waiters pcs]; apply not_owner_other; assumption).
   - (* EResume *)
     destruct (get_pc (pcs s) t) as [| k f | | | | |] eqn:Ep; try discriminate.
     assert (Hn : ~ is_owner_pc (get_pc (pcs s) t)).
@@ -155,9 +158,10 @@ Proof.
     destruct f; try discriminate.
     + set (s1 := with_woken s (filter (fun x => negb (x =? t)) (woken s))) in *.
       assert (O1 : owned c s1) by (eapply (owned_same c s); [reflexivity|reflexivity|reflexivity|intros; reflexivity|exact O]).
-      destruct (wait_slot_found _); injection H as <-; [apply proceed_owned; assumption|].
-      eapply (owned_same c s); [reflexivity|reflexivity|reflexivity| |exact O].
-      intros t' Ho. unfold s1. cbn [with_pc with_waiters with_woken pcs]. apply (not_owner_other s); assumption.
+      destruct (wait_slot_found _); [injection H as <-; apply proceed_owned; assumption|].
+      destruct (refuse_wait s1); injection H as <-;
+        (eapply (owned_same c s); [reflexivity|reflexivity|reflexivity| |exact O];
+         intros t' Ho; unfold s1; cbn [with_pc with_waiters with_woken pcs]; apply (not_owner_other s); assumption).
     + injection H as <-. eapply (owned_same c s); [reflexivity|reflexivity|reflexivity| |exact O].
       intros t' Ho. cbn [with_pc with_waiters pcs]. apply not_owner_other; assumption.
     + set (s1 := with_woken s (filter (fun x => negb (x =? t)) (woken s))) in *.
